@@ -57,7 +57,19 @@ func genMixinDoc(g *Gen, r *rand.Rand, o string, keyPool []string, pathPool []st
 		for _, p := range sub(pathPool) {
 			pi := NewNode()
 			perm := r.Perm(len(allMethods))
-			for j, nm := 0, 1+r.Intn(3); j < nm; j++ {
+			nops := r.Intn(4)
+			if nops == 0 {
+				// a path item without any operation: shared parameters only, or an extension only, or nothing at all
+				switch r.Intn(3) {
+				case 0:
+					q := leaf("string")
+					q.At["in"], q.At["name"] = "query", o
+					pi.Ch["parameters"] = listNode(q)
+				case 1:
+					pi.At["x-a"] = o
+				}
+			}
+			for j, nm := 0, nops; j < nm; j++ {
 				op := NewNode()
 				op.At["summary"] = o
 				if r.Intn(4) > 0 {
@@ -143,7 +155,7 @@ func genMixinDoc(g *Gen, r *rand.Rand, o string, keyPool []string, pathPool []st
 		d.At["basePath"] = "/" + o
 	}
 	ext := func(n *Node) {
-		for _, x := range []string{"x-a", "x-b"} {
+		for _, x := range []string{"x-a", "x-b", "X-Mixed"} { // (extension keys are kept as spelled)
 			if r.Intn(3) == 0 {
 				n.At[x] = o
 			}
